@@ -14,7 +14,7 @@ Definition kind (n : fname) : N := snd (fst n).
 Definition recs (x : wdb) : list ckrec := x_ckpts x ++ x_pending x.
 Definition doc_files (d : doc) : list fname := dc_wal d :: map td_name (dc_tables d).
 Definition agrees (d : doc) (c : ckrec) : Prop :=
-  dc_id d = c_id c /\ dc_wal d = c_wal c /\ map td_name (dc_tables d) = map t_name (c_tabs c).
+  dc_id d = c_id c /\ dc_wal d = c_wal c /\ forall n, In n (map td_name (dc_tables d)) -> In n (map t_name (c_tabs c)).
 
 (* the names a live object can reach *)
 Definition rn (x : wdb) : list fname :=
@@ -79,7 +79,7 @@ Definition retain_x1 (x : wdb) (ids : list N) : wdb :=
 Definition ckpt_x1 (x : wdb) (id : N) : wdb :=
   with_ck x (x_ckpts x) (x_pending x) (filter (fun t => negb (fst t =? id)) (x_cktasks x)).
 
-Definition step_ok (w : world) (o : op) : Prop :=
+Fixpoint step_ok (w : world) (o : op) : Prop :=
   match o with
   | OGc => gc_ok w
   | ORetain d ids => forall x, get_db w d = Some x -> x_state x = Live /\ destroy_ok w d (retain_x1 x ids)
@@ -92,12 +92,16 @@ Definition step_ok (w : world) (o : op) : Prop :=
   | ORestore _ id same _ _ =>
       ~ In id (g_dropped w) /\
       (same = true -> forall hd i x, handle_dir w id = Some hd -> nth_error (g_dbs w) i = Some x -> x_state x = Live -> x_dir x <> hd)
-  | ORestoreM _ id dirs _ _ =>
+  | ORestoreM _ id dirs same _ _ =>
       ~ In id (g_dropped w) /\
-      (forall ds, load_docs w id dirs = inl (Some ds) ->
-         NoDup (map dc_wal ds) /\ forall d, In d ds -> fst (fst (dc_wal d)) <> g_nextdir w)
+      (forall d1 ds, load_docs w id dirs = inl (Some (d1 :: ds)) ->
+         NoDup (map dc_wal (d1 :: ds)) /\
+         (forall d, In d ds -> fst (fst (dc_wal d)) <> (if same then hd 0 dirs else g_nextdir w)) /\
+         (same = false -> fst (fst (dc_wal d1)) <> g_nextdir w)) /\
+      (same = true -> forall i x, nth_error (g_dbs w) i = Some x -> x_state x = Live -> x_dir x <> hd 0 dirs)
   | OStepCompact _ (CRadded names) => forall n, In n names -> kind n = 0
   | OStepCompact _ (CRswapped _ added) => forall a, In a added -> kind (fst a) = 0
+  | OSeq a b => step_ok w a /\ step_ok (step w a) b
   | _ => True
   end.
 
@@ -509,7 +513,7 @@ Qed.
 
 (* ------------------------------------------------------------------ CheckpointList.Save, part 1: the checkpoints file is written *)
 Lemma agrees_doc_of c : agrees (doc_of c) c.
-Proof. unfold agrees, doc_of. cbn. repeat split. rewrite map_map. reflexivity. Qed.
+Proof. unfold agrees, doc_of. cbn. repeat split. intros n Hn. rewrite map_map in Hn. exact Hn. Qed.
 
 Lemma find_doc_in docs id d : find_doc docs id = Some d -> In d docs /\ dc_id d = id.
 Proof. unfold find_doc. intro H. apply find_some in H. destruct H as [H1 H2]. split; [exact H1|]. apply N.eqb_eq. exact H2. Qed.
@@ -570,8 +574,9 @@ Proof.
       unfold recs in Hc. apply in_app_or in Hc. destruct Hc as [Hc|Hc].
       * exists (map doc_of (x_ckpts x)), (doc_of c). split; [unfold f'; apply fs_get_put_same|]. split.
         -- rewrite <- Eid. apply find_doc_map; [|exact Hc]. unfold recs in sd_ids0. rewrite map_app in sd_ids0. eapply nodup_app_l. exact sd_ids0.
-        -- intros n Hn. apply M. apply G3. unfold doc_files in *. cbn [doc_of dc_wal dc_tables] in Hn. rewrite map_map in Hn. cbn in Hn.
-           destruct Hn as [Hn|Hn]; [left; rewrite A2; exact Hn|right; rewrite A3; exact Hn].
+        -- intros n Hn. apply M. unfold doc_files in *. cbn [doc_of dc_wal dc_tables] in Hn. rewrite map_map in Hn. cbn in Hn.
+           destruct Hn as [Hn|Hn]; [apply G3; left; rewrite A2; exact Hn|].
+           apply sd_reach0. apply in_rn_parts. right. left. apply in_flat_map. exists c. split; [unfold recs; apply in_or_app; auto|exact Hn].
       * exfalso. apply ND. apply in_or_app. right. rewrite <- Eid. apply in_map. exact Hc.
     + exists docs, dd. split; [rewrite GO by congruence; exact G1|]. split; [exact G2|]. intros n Hn. apply M, G3, Hn.
   - exact sf_writer0.
@@ -679,7 +684,7 @@ Proof.
       intros n Hn. assert (forall p m, In p (x_pending x) -> In m (c_allw p) -> m <> n) as NW; [|rewrite (fs_has_get _ _ _ (KEEP _ NW)); apply G3; exact Hn].
       intros p m Hp Hm Ew. unfold doc_files in Hn. destruct Hn as [Hn|Hn].
       * apply (NWK c Hck p m Hp Hm). rewrite Ew, <- Hn. exact A2.
-      * rewrite A3 in Hn. assert (kind n = 0) as K0.
+      * apply A3 in Hn. assert (kind n = 0) as K0.
         { apply sd_kt0. apply in_rn_parts. right. left. apply in_flat_map. exists c. split; [exact Hc|exact Hn]. }
         pose proof (KW1 p m Hp Hm) as K1. rewrite Ew in K1. lia.
     + assert (forall n, In n (doc_files dd) \/ n = (D, 2, 0) -> fs_get f' n = fs_get (g_fs w) n) as PH.
@@ -1048,7 +1053,7 @@ Proof.
           destruct same.
           + unfold dir in Gd, Hh. rewrite GF in Gd. inversion Gd; subst dcs.
             destruct (N.eq_dec id0 id) as [->|NE].
-            * rewrite FD in Fd. inversion Fd; subst d0. unfold agrees. cbn. auto.
+            * rewrite FD in Fd. inversion Fd; subst d0. unfold agrees. cbn. repeat split. intros n Hn. unfold ts. rewrite map_map. exact Hn.
             * exfalso. apply ND0. apply in_or_app. right. unfold gone. apply in_map_iff. exists (id0, hd). split; [reflexivity|].
               apply filter_In. split; [exact Hh|]. cbn. unfold dir. rewrite N.eqb_refl. cbn. apply negb_true_iff. apply N.eqb_neq. exact NE.
           + exfalso. unfold dir in Hh. pose proof (sf_hdirs w S _ _ Hh). lia.
@@ -1103,10 +1108,26 @@ Proof.
     + apply (IH ds0 eq_refl d Hd).
 Qed.
 
-Lemma safe_step_restoreM w nd id dirs o nb : Safe w -> step_ok w (ORestoreM nd id dirs o nb) -> Safe (step w (ORestoreM nd id dirs o nb)).
+Lemma load_docs_head w id h1 rest d1 ds : load_docs w id (h1 :: rest) = inl (Some (d1 :: ds)) ->
+  In (id, h1) (g_handles w) /\ exists docs, fs_get (g_fs w) (h1, 2, 0) = Some (FCk docs) /\ find_doc docs id = Some d1.
 Proof.
-  intros S [ND MON]. cbn [step].
-  destruct (open_fromM w id dirs (g_nextdir w) o nb) as [code|x] eqn:OP.
+  cbn [load_docs]. destruct (existsb (fun h => (fst h =? id) && (snd h =? h1)) (g_handles w)) eqn:EX; cbn [negb]; [|discriminate].
+  destruct (fs_get (g_fs w) (h1, 2, 0)) as [[| |docs]|] eqn:GF; try discriminate.
+  destruct (find_doc docs id) as [d0|] eqn:FD; [|discriminate].
+  destruct (load_docs w id rest) as [[ds0|]|c] eqn:LR; try discriminate. intro H. inversion H; subst. split.
+  - apply existsb_exists in EX. destruct EX as [[i D] [Hh E]]. cbn in E. apply andb_true_iff in E. destruct E as [E1 E2].
+    apply N.eqb_eq in E1, E2. subst. exact Hh.
+  - exists docs. auto.
+Qed.
+
+Lemma fold_max_ge (l : list doc) d : In d l -> num_of (dc_wal d) <= fold_right (fun d a => N.max (num_of (dc_wal d)) a) 0 l.
+Proof. induction l as [|x l IH]; [intros []|]. cbn [fold_right]. intros [->|H]; [lia|]. specialize (IH H). lia. Qed.
+
+Lemma safe_step_restoreM w nd id dirs same o nb : Safe w -> step_ok w (ORestoreM nd id dirs same o nb) -> Safe (step w (ORestoreM nd id dirs same o nb)).
+Proof.
+  intros S [ND [MON SAME]]. cbn [step].
+  set (dir := if same then hd 0 dirs else g_nextdir w) in *.
+  destruct (open_fromM w id dirs dir o nb) as [code|x] eqn:OP.
   - apply safe_add_db; [exact S|]. cbn. discriminate.
   - unfold open_fromM in OP. destruct (load_docs w id dirs) as [[[|d1 ds]|]|c] eqn:LD; try discriminate.
     destruct (replay_docs (g_fs w) (d1 :: ds)) as [[es|]|c] eqn:RP; try discriminate.
@@ -1114,50 +1135,70 @@ Proof.
     set (walid := fold_right (fun d a => N.max (num_of (dc_wal d)) a) 0 (d1 :: ds)) in *.
     destruct (db_restore (g_mem w) (g_walmax w) o ts walid es) as [core rots] eqn:DR.
     inversion OP; subst x. clear OP.
-    destruct (MON _ eq_refl) as [NDW NDIR].
-    assert (d_tables core = ts) as CT.
+    destruct (MON _ _ eq_refl) as [NDW [NDIR NDIR1]].
+    assert (d_tables core = ts /\ w_id (d_wal core) = walid + 1) as [CT CW].
     { pose proof (db_replay_core o es (mkDb (tables_latest ts) [] [] ts (tables_latest ts) (wal_new (walid + 1)) (g_mem w) (g_walmax w))) as E.
       unfold db_restore in DR. rewrite DR in E. cbn [fst] in E. rewrite E.
-      destruct (replay_core_fields o es (mkDb (tables_latest ts) [] [] ts (tables_latest ts) (wal_new (walid + 1)) (g_mem w) (g_walmax w))) as [A _].
-      rewrite A. reflexivity. }
-    (* every document comes from a completed handle that no saved update dropped: its files exist *)
+      destruct (replay_core_fields o es (mkDb (tables_latest ts) [] [] ts (tables_latest ts) (wal_new (walid + 1)) (g_mem w) (g_walmax w))) as [A B].
+      rewrite A, B. auto. }
     assert (forall d, In d (d1 :: ds) -> kind (dc_wal d) = 1 /\ forall t, In t (dc_tables d) -> kind (td_name t) = 0 /\ fs_has (g_fs w) (td_name t) = true) as DOCS.
-    { intros d Hd. destruct (load_docs_spec w id dirs _ LD d Hd) as [hd [docs [Hh [GF FD]]]].
-      destruct (sf_handles w S id hd Hh ND) as [docs' [d' [G1 [G2 G3]]]]. rewrite GF in G1. inversion G1; subst docs'. rewrite FD in G2. inversion G2; subst d'.
+    { intros d Hd. destruct (load_docs_spec w id dirs _ LD d Hd) as [hd0 [docs [Hh [GF FD]]]].
+      destruct (sf_handles w S id hd0 Hh ND) as [docs' [d' [G1 [G2 G3]]]]. rewrite GF in G1. inversion G1; subst docs'. rewrite FD in G2. inversion G2; subst d'.
       destruct (sf_kinds w S _ _ d GF (proj1 (find_doc_in _ _ _ FD))) as [KW [KT _]].
       split; [exact KW|]. intros t Ht. split; [apply KT; exact Ht|]. apply G3. right. apply in_map. exact Ht. }
     assert (forall t, In t tds -> kind (td_name t) = 0 /\ fs_has (g_fs w) (td_name t) = true) as TDS.
     { intros t Ht. unfold tds in Ht. apply in_flat_map in Ht. destruct Ht as [d [Hd Ht]]. apply (proj2 (DOCS d Hd) t Ht). }
     assert (map t_name ts = map td_name tds) as NT by (unfold ts; rewrite map_map; reflexivity).
-    apply safe_add_db; [exact S|]. intros _.
+    set (gone := if same then map fst (filter (fun h => (snd h =? dir) && negb (fst h =? id)) (g_handles w)) else []).
+    pose proof (safe_add_dropped w gone S) as S0.
+    apply safe_add_db; [exact S0|]. intros _.
     match goal with |- context [after_rotations ?X rots] => set (x0 := X) end.
     destruct (after_rotations_fields x0 rots) as [Ec [Ed [Ek [Ep [Et [Eo [Es [Em Ef]]]]]]]].
+    cbn [add_dropped g_fs g_dbs g_handles g_dropped g_nextdir].
     split; [|split].
-    + assert (safe_db (g_fs w) (g_handles w) (g_dropped w) x0) as SX0.
+    + assert (safe_db (g_fs w) (g_handles w) (g_dropped w ++ gone) x0) as SX0.
       { constructor; unfold recs; cbn [x0 x_ckpts x_pending x_dir x_objs x_cktasks x_core app].
         - intros n Hn. apply in_rn_parts in Hn. unfold recs in Hn. cbn in Hn. rewrite ?CT, ?app_nil_r in Hn.
           assert (In n (map td_name tds)) as Hn' by (rewrite <- NT; destruct Hn as [Hn|[Hn|[[]|[]]]]; exact Hn).
           apply in_map_iff in Hn'. destruct Hn' as [t [<- Ht]]. apply TDS. exact Ht.
-        - intros dcs id0 d0 _ _ Hh. exfalso. pose proof (sf_hdirs w S _ _ Hh). lia.
+        - intros dcs id0 d0 Gd Fd Hh ND0.
+          destruct same.
+          + (* into the directory of the first handle: its other handles are superseded *)
+            destruct dirs as [|h1 rest]; [cbn in LD; discriminate|]. cbn [hd] in *. unfold dir in *.
+            destruct (load_docs_head _ _ _ _ _ _ LD) as [_ [docs1 [GF1 FD1]]].
+            rewrite GF1 in Gd. inversion Gd; subst dcs.
+            destruct (N.eq_dec id0 id) as [->|NE].
+            * rewrite FD1 in Fd. inversion Fd; subst d0. eexists. split; [left; reflexivity|].
+              unfold agrees. cbn. split; [apply (proj2 (find_doc_in _ _ _ FD1))|]. split; [reflexivity|].
+              intros n Hn. rewrite map_map. cbn [table_of_doc t_name]. rewrite map_app. apply in_or_app. left. exact Hn.
+            * exfalso. apply ND0. apply in_or_app. right. unfold gone. apply in_map_iff. exists (id0, h1). split; [reflexivity|].
+              apply filter_In. split; [exact Hh|]. cbn. rewrite N.eqb_refl. cbn. apply negb_true_iff. apply N.eqb_neq. exact NE.
+          + exfalso. unfold dir in Hh. pose proof (sf_hdirs w S _ _ Hh). lia.
         - constructor; [intros []|constructor].
         - cbn [flat_map c_allw c_wal c_xw app]. rewrite app_nil_r. exact NDW.
         - intros c [<-|[]]. cbn. apply DOCS. left. reflexivity.
         - intros c n [<-|[]] Hn. cbn in Hn. apply in_map_iff in Hn. destruct Hn as [d [<- Hd]]. split.
           + apply DOCS. right. exact Hd.
-          + apply NDIR. right. exact Hd.
+          + apply NDIR. exact Hd.
         - intros ob Hob. apply in_map_iff in Hob. destruct Hob as [t [<- Ht]]. cbn. apply TDS. exact Ht.
         - intros n Hn. apply in_rn_parts in Hn. unfold recs in Hn. cbn in Hn. rewrite ?CT, ?app_nil_r in Hn.
           assert (In n (map td_name tds)) as Hn' by (rewrite <- NT; destruct Hn as [Hn|[Hn|[[]|[]]]]; exact Hn).
           apply in_map_iff in Hn'. destruct Hn' as [t [<- Ht]]. apply TDS. exact Ht.
-        - intros c [<-|[]] E. exfalso. cbn in E. apply (NDIR d1 (or_introl eq_refl)). exact E.
+        - intros c [<-|[]] E. cbn [c_wal] in *. destruct same.
+          + rewrite CW. pose proof (fold_max_ge (d1 :: ds) d1 (or_introl eq_refl)). fold walid in H. unfold num_of in H. lia.
+          + exfalso. apply (NDIR1 eq_refl). exact E.
         - intros id0 []. }
       eapply safe_db_step; [exact SX0|apply fs_mono_refl|apply ck_same_refl|exact Ed|exact Ek|exact Ep| | | |].
       * rewrite Et. intros id0 [].
       * rewrite Eo. auto.
       * intros n Hn. left. eapply rn_after_rotations. exact Hn.
       * rewrite Ec. lia.
-    + rewrite Ed. cbn [x0 x_dir]. intros i y Hy Ly E. pose proof (sf_dirs w S _ _ Hy Ly). lia.
-    + rewrite Ed. cbn [x0 x_dir]. lia.
+    + rewrite Ed. cbn [x0 x_dir]. intros i y Hy Ly E. destruct same.
+      * unfold dir in E. exact (SAME eq_refl i y Hy Ly E).
+      * unfold dir in E. pose proof (sf_dirs w S _ _ Hy Ly). lia.
+    + rewrite Ed. cbn [x0 x_dir]. destruct same; cbn [negb]; unfold dir.
+      * destruct dirs as [|h1 rest]; [cbn in LD; discriminate|]. cbn [hd]. destruct (load_docs_head _ _ _ _ _ _ LD) as [Hh _]. apply (sf_hdirs w S _ _ Hh).
+      * lia.
 Qed.
 
 (* ------------------------------------------------------------------ the collection *)
@@ -1254,7 +1295,7 @@ Proof.
           specialize (sd_ko0 ob Hob). rewrite Eob in sd_ko0.
           destruct Hn as [[Hn|Hn]|Hn].
           * specialize (sd_kw0 c Hc). rewrite <- A2, Hn in sd_kw0. lia.
-          * apply NR. apply in_rn_parts. right. left. apply in_flat_map. exists c. split; [exact Hc|]. rewrite <- A3. exact Hn.
+          * apply NR. apply in_rn_parts. right. left. apply in_flat_map. exists c. split; [exact Hc|]. apply A3. exact Hn.
           * rewrite Hn in sd_ko0. discriminate.
         + apply (OK j zj n Hj ltac:(rewrite St; discriminate) Hm). right. exists id, D, docs, dd. repeat split; try assumption.
           intros [x0 [Hx0 [L0 _]]]. rewrite Hj in Hx0. inversion Hx0; subst. congruence.
@@ -1286,9 +1327,9 @@ Proof.
   - intros n docs d H. discriminate.
 Qed.
 
-Theorem safe_step w o : Safe w -> step_ok w o -> Safe (step w o).
+Theorem safe_step o : forall w, Safe w -> step_ok w o -> Safe (step w o).
 Proof.
-  intros S OK. destruct o as [d k v rot|d k rot|d id|d|d r|d id|d ids|d ids f|d id f|d|nd id same ow nb|nd id dirs ow nb|nd|d|d| |d].
+  induction o as [d k v rot|d k rot|d id|d|d r|d id|d ids|d ids f|d id f|d|nd id same ow nb|nd id dirs same2 ow nb|nd|d|d| |d|a IHa b IHb]; intros w S OK.
   - apply safe_write. exact S.
   - apply safe_write. exact S.
   - apply safe_step_ckpt_call; assumption.
@@ -1306,6 +1347,7 @@ Proof.
   - cbn [step]. destruct (get_db w d) as [x|] eqn:G; [|exact S]. eapply safe_unlive; [exact S|exact G|reflexivity|cbn; discriminate].
   - apply safe_step_gc; assumption.
   - exact S.
+  - cbn [step]. destruct OK as [O1 O2]. apply IHb; [apply IHa; assumption|exact O2].
 Qed.
 
 Theorem safe_run ops : forall w, Safe w -> run_ok w ops -> Safe (run w ops).
